@@ -74,9 +74,9 @@ func runKalias(r *rng, n int) {
 			// let them be received and decoded (their handlers may wait for locks: that is fine)
 			time.Sleep(time.Duration(5+r.intn(20)) * time.Millisecond)
 			close(g.release)
-			deadline := time.Now().Add(5 * time.Second)
+			deadline := time.Now().Add(12 * time.Second)
 			for time.Now().Before(deadline) {
-				tag, _, _, ok := s.recvReply(0, 2*time.Second)
+				tag, _, _, ok := s.recvReply(0, 6*time.Second)
 				if !ok {
 					break
 				}
@@ -128,7 +128,7 @@ func kaliasReads(r *rng) {
 	}
 	time.Sleep(20 * time.Millisecond)
 	for k := 0; k < sent; k++ {
-		f, err := s.conns[0].readFrame(5 * time.Second)
+		f, err := s.conns[0].readFrame(10 * time.Second)
 		if err != nil || len(f) < 11 || f[4] != 117 {
 			break
 		}
